@@ -67,6 +67,21 @@ theorem pageCheck_ok_unmarked (what : String) (marks : Array UInt8) (bump : Nat)
           · exact hm.1.2 h2
           · exact hm.2 h3
 
+/-- an accepted `bbn` page write passes `pageCheck` and does not hit an unclaimed page below the frontier -/
+theorem pageCheckBbn_ok (marks : Array UInt8) (bump : Nat) (st st' : PlacementStats) (e : IoEv)
+    (h : pageCheckBbn marks bump st e = .ok st') :
+    pageCheck "bbn" marks bump st e = .ok st' ∧
+    ¬ (e.offset / PAGE ≠ 0 ∧ e.offset / PAGE < bump ∧ marks[e.offset / PAGE]! = 0) := by
+  unfold pageCheckBbn at h
+  simp only at h
+  split at h
+  · cases h
+  · rename_i hc
+    refine ⟨h, ?_⟩
+    rintro ⟨h0, hlt, hz⟩
+    apply hc
+    simp [h0, hlt, hz]
+
 theorem checkEv_ln (lnM bbnM : Array UInt8) (lnB bbnB lnS bbnS : Nat) (st st' : PlacementStats) (e : IoEv)
     (hk : e.kind = "Write") (hf : e.file = "ln") (h : checkEv lnM bbnM lnB bbnB lnS bbnS st e = .ok st') :
     ¬ markReach lnM bbnM lnB bbnB File.fLn (e.offset / PAGE) := by
@@ -86,10 +101,10 @@ theorem checkEv_bbn (lnM bbnM : Array UInt8) (lnB bbnB lnS bbnS : Nat) (st st' :
   unfold checkEv at h
   have hne : ("bbn" == "ln") = false := by decide
   simp only [hk, hf, beq_self_eq_true, Bool.and_self, if_true, hne, Bool.and_false, Bool.false_eq_true, if_false] at h
-  cases hp : pageCheck "bbn" bbnM bbnB { st with preMetaEvents := st.preMetaEvents + 1 } e with
+  cases hp : pageCheckBbn bbnM bbnB { st with preMetaEvents := st.preMetaEvents + 1 } e with
   | error m => simp [hp, Except.map] at h
   | ok s =>
-    have := pageCheck_ok_unmarked _ _ _ _ _ _ hp
+    have := pageCheck_ok_unmarked _ _ _ _ _ _ (pageCheckBbn_ok _ _ _ _ _ hp).1
     rintro (⟨h2, _⟩ | ⟨_, h1⟩)
     · cases h2
     · exact this h1
